@@ -85,6 +85,17 @@ def gen(fmt, entry, stream=False):
                        "rp_put(out, n, (char)(0x80 | (cp & 0x3F))); } else if (cp < 0x10000) { rp_put(out, n, (char)(0xE0 | (cp >> 12))); "
                        "rp_put(out, n, (char)(0x80 | ((cp >> 6) & 0x3F))); rp_put(out, n, (char)(0x80 | (cp & 0x3F))); } else { rp_put(out, n, (char)(0xF0 | (cp >> 18))); "
                        "rp_put(out, n, (char)(0x80 | ((cp >> 12) & 0x3F))); rp_put(out, n, (char)(0x80 | ((cp >> 6) & 0x3F))); rp_put(out, n, (char)(0x80 | (cp & 0x3F))); } }" % k)
+        elif conv == "s" and length == "l" and not (width or dot):
+            # %ls: wide string of <= 2 characters from the same alphabet, exact object; reference = its UTF-8 encoding
+            inputs.append("A(unsigned char, ws%d, 2) S(unsigned char, wl%d)" % (k, k))
+            setup.append("in.wl%d = 2; in.ws%d[0] = ARGSEL; in.ws%d[1] = (ARGSEL + 1 + (ARGSEL >> 1)); /* concrete string per job: a symbolic length makes malloc(l + 1) a symbolic-size object */ W%d = (wchar_t *)vh_alloc((in.wl%d + 1) * sizeof(wchar_t)); "
+                         "for (unsigned i = 0; i < 2; i++) if (i < in.wl%d) W%d[i] = (wchar_t)VH_WCA[in.ws%d[i] & 3]; W%d[in.wl%d] = 0;" % (k, k, k, k, k, k, k, k, k, k))
+            args.append("W%d" % k)
+            sent.append("static wchar_t *W%d;" % k)
+            ref.append("for (unsigned q = 0; q < 2; q++) if (q < in.wl%d) { unsigned cp = VH_WCA[in.ws%d[q] & 3]; if (cp < 0x80) rp_put(out, n, (char)cp); else if (cp < 0x800) { "
+                       "rp_put(out, n, (char)(0xC0 | (cp >> 6))); rp_put(out, n, (char)(0x80 | (cp & 0x3F))); } else if (cp < 0x10000) { rp_put(out, n, (char)(0xE0 | (cp >> 12))); "
+                       "rp_put(out, n, (char)(0x80 | ((cp >> 6) & 0x3F))); rp_put(out, n, (char)(0x80 | (cp & 0x3F))); } else { rp_put(out, n, (char)(0xF0 | (cp >> 18))); "
+                       "rp_put(out, n, (char)(0x80 | ((cp >> 12) & 0x3F))); rp_put(out, n, (char)(0x80 | ((cp >> 6) & 0x3F))); rp_put(out, n, (char)(0x80 | (cp & 0x3F))); } }" % (k, k))
         elif conv == "c" and length is None:
             inputs.append("S(int, a%d)" % k)
             args.append("(int)in.a%d" % k)
@@ -185,7 +196,7 @@ def harness_file(fmt, entry, stream=False):
 CORE = ["%d", "%i", "%u", "%x", "%X", "%o", "%c", "%s", "a%%b", "%5d", "%-5d", "%05d", "%+d", "% d", "%.3d", "%5.3d", "%#x", "%#o",
         "%ld", "%lld", "%hd", "%hhd", "%hhu", "%hu", "%lu", "%llx", "%zu", "%jd", "%td", "%*d", "%.*d", "%.0d", "%s|%d", "ab%dcd",
         "%5s", "%-5s", "%.2s", "%5.2s", "%c%c", "%x %o", "%08X", "%+5d", "%#5x", "%-+5d", "% 05d", "%#.3x", "%#06x", "%3c", "%-3c", "%lc", "ab%lc|",
-        "%-5.3d", "%-+6.3d", "%-6.3x", "%#.3o", "%#5.3o", "%#.0o", "%#o", "%5.0s", "%-4.0s", "%3.s", "%+5d", "%5d|%-4d"]
+        "%-5.3d", "%-+6.3d", "%-6.3x", "%#.3o", "%#5.3o", "%#.0o", "%#o", "%5.0s", "%-4.0s", "%3.s", "%+5d", "%5d|%-4d", "[%ls]"]
 MORE = ["%.*s", "%*s", "%%%d", "%d%%", "%+.3d", "%-#6o", "%#X", "%lli", "%hi", "%hhi", "%hx", "%hhx", "%lo", "%llo", "%zx", "%jx", "%ju", "%tx",
         "%0*d", "%-*.*d", "%+*d", "%.1s", "%.0s", "%10.4s", "%-6.1s", "%s%s", "%d %s %c", "%#.0o", "%#.0x", "%+.0d", "%5%", "%ho",
         "x%5cy", "%- 5d", "%+ d", "%00d", "%--5d", "%.10d", "%20d", "%-20d|", "%020d", "%llu", "%lx", "%lX", "%#lx", "%#llo"]
@@ -240,7 +251,7 @@ def jobs(prop, tier, only_fn=None):
         path, has_n, h = harness_file(fmt, entry, stream)
         files = ENGINE + (STREAM if stream else [])
         decimal = bool(re.search(r"%[-+ #0]*(\*|\d+)?(\.(\*|\d+)?)?(hh|h|ll|l|j|z|t)?[diu]", fmt))
-        sels = [0, 1, 2, 3] if (decimal and prop == "C11") else [0]
+        sels = [0, 1, 2, 3] if ((decimal or "%ls" in fmt) and prop == "C11") else [0]
         for variant in variants:
           for sel in sels:
             for dm in (dmaxes if sel == 0 else dmaxes[:1]):
